@@ -30,6 +30,16 @@
   The operating system's scheduling of the concurrent steps is an explicit input: a *schedule*
   (a list of lane indices; entry `i` means "the process lane `i` is currently running exits now").
 
+  **Identity.** `Proc.id` names the *content* of an instruction (its instruction string), not a position:
+  the configuration may hold one instruction any number of times — the same string as two top-level
+  entries, the same serial sub-list twice, the same map twice (a yaml alias), the same string several
+  times inside one `run` list — and `World.proc` gives every occurrence one and the same scripted
+  outcome. Nothing in this file (parser, runs, `flattenSpec` / `lanesSpec`) looks at equality between
+  commands: a declared occurrence is a *position* of a list, and every list here is mapped / flat-mapped,
+  never de-duplicated. Observations are therefore lists with repetitions (`started`, `errors`, `trace`: an
+  id occurs once per process); no definition or theorem assumes distinct ids, with one exception that the
+  driver enforces instead: `filesAsync` resolves a finished process by its id (`writerOf`).
+
   Not modelled: *where* a spawn error comes from (executable, cwd, quoting) is the harness's business —
   the model only needs its kind; `\r` in text output (universal-newline translation of `subprocess`).
 
@@ -658,7 +668,9 @@ def writerOf : List ACommand → Nat → Option (Redirect × Proc)
 
 /-- The files once the concurrent step is over: every command's coroutine opens its handles before
     any process has run (declaration order); each process writes when it runs to its end, i.e. in the
-    order of the `fin` events of the trace. (Process ids are assumed distinct.) -/
+    order of the `fin` events of the trace. (An instruction of a command that writes to a file is assumed
+    to occur in that command only — equal ids inside one command share its handles; the driver rejects the
+    rest as outside the modelled domain.) -/
 def filesAsync (cs : List ACommand) (trace : List Event) (fs : Fs) : Fs :=
   trace.foldl (fun f ev => match ev with
       | .fin i => (match writerOf cs i with
@@ -915,6 +927,38 @@ def specItem : Val → List (String × Bool × Bool)
 
 /-- Declaration order, written directly on the configuration value. -/
 def flattenSpec (cfg : Val) : List (String × Bool × Bool) := (specItems cfg).flatMap specItem
+
+/-! ### The short specification of the units of concurrency ("top-level entries")
+
+A *lane* is what the concurrent steps start side by side: a top-level instruction, a top-level serial
+sub-list, and — for a map — every element of its `run` (one when `run` is a string). One lane per
+declared occurrence: equal entries are separate lanes. -/
+
+/-- The lanes of a command as built: one per element of its `run` list. -/
+def RawRun.lanes : RawRun → List (List String)
+  | .single s => [[s]]
+  | .many es => es.map RawEntry.strings
+
+/-- The lanes of the step as built by the constructor, in declaration order. -/
+def rawLanes (cs : List RawCommand) : List (List String) := cs.flatMap (fun c => c.run.lanes)
+
+/-- The lanes in a value of `run`. -/
+def specRunLanes : Val → List (List String)
+  | .str s => [[s]]
+  | .list xs => xs.map specInner
+  | .tuple xs => xs.map specInner
+  | _ => []
+
+/-- The lanes of one item of the configuration. -/
+def specItemLanes : Val → List (List String)
+  | .str s => [[s]]
+  | .dict kvs => specRunLanes ((dget kvs "run").getD .none)
+  | .list xs => [xs.filterMap strOf?]
+  | .tuple xs => [xs.filterMap strOf?]
+  | _ => []
+
+/-- The lanes, written directly on the configuration value (no de-duplication anywhere). -/
+def lanesSpec (cfg : Val) : List (List String) := (specItems cfg).flatMap specItemLanes
 
 /-! ### Resolution: instruction strings ↦ scripted outcomes -/
 
